@@ -881,6 +881,9 @@ func (ex *Exec) appendOp(fr *Frame, st *State, cc *ssa.CallCommon, args []Value,
 				ts.Eq(ts.Select(content, j), ts.Select(ts.Select(el, arr2), ts.Add(off2, ts.Sub(j, ts.Add(off, ln)))))))))
 	}
 	na := ex.freshObject(st, "append")
+	ex.arrIs(na, slt.Elem())
+	ex.arrIs(arr, slt.Elem())
+	ex.arrIs(arr2, slt.Elem())
 	resArr := ts.Ite(fits, arr, na)
 	ncap := ts.Fresh("append.cap", SInt)
 	ex.assume(st.PC, ts.And(ts.Ge(ncap, newLen), ts.Le(ncap, ts.Int(1<<40))))
